@@ -101,7 +101,12 @@ func (ex *exprTr) ghostBuiltin(name string, args []Val, rt types.Type) (Val, boo
 		key := vc.mapKeyTerm(vc.asTerm(args[0]), types.Typ[types.String])
 		return Val{t: app("select", vc.heapGet(ex.st, ghostTally, "(Array Int Int)"), key), typ: rt}, true
 	case "verif_streamPos":
-		return Val{t: app("select", vc.heapGet(ex.st, streamPosHeap, streamPosSort), ex.coerceDyn(args[0])), typ: rt}, true
+		pos := app("select", vc.heapGet(ex.st, streamPosHeap, streamPosSort), ex.coerceDyn(args[0]))
+		if !vc.noDefine {
+			// a count of calls made so far: a non-negative int (2^63 calls do not happen)
+			vc.addAssume("true", and(app("<=", "0", pos), app("<=", pos, "9223372036854775807")))
+		}
+		return Val{t: pos, typ: rt}, true
 	}
 	return Val{}, false
 }
